@@ -20,7 +20,7 @@ def export_family(fam, K, CH, sd, extra_env=None):
     env = {"FAM": fam, "K": K, "CH": CH, "OUT": tmp}
     if extra_env:
         env.update(extra_env)
-    r = run_tlc("Families.tla", "Families.cfg", env=env, extra=["-seed", str(sd)], timeout=900)
+    r = run_tlc("Families.tla", "Families.cfg", env=env, extra=["-seed", str(sd)], timeout=2400, xmx="12g")
     if r["error"] or not os.path.exists(tmp):
         raise Broken("family export %s failed: %s\n%s" % (fam, r["error"], r["out"][-2000:]))
     os.replace(tmp, out)
@@ -177,7 +177,7 @@ def engine_check(pid, fams, tier_, maxruns, level_note="", props=None, extra_cov
             "rule": "scenario = graph x history x config from spec/Families.tla (TLC export, seed-selected); every completion order "
                     "by DFS up to maxruns per scenario; counted non-trivial = invocations in which at least one command started",
             "scenarios": len(scen), "executions": execs, "executions_capped_scenarios": capped,
-            "invocations": stats["invokes"], "command_starts": stats["starts"],
+            "invocations": stats["invokes"], "command_starts": stats["starts"], "trace_stats": dict(stats),
             "known_finding_hits": {k: n for k, (w, n) in known_hits.items()},
             "families": [{k: v for k, v in f.items() if k != "mut"} for f in fams],
             "exhaustive": False,
